@@ -60,6 +60,9 @@ func checkC07(c *Ctx) {
 	// the acknowledgement can be written at every size: Len() of the responses sizes the header for the new remaining length
 	c.lenOrdering()
 	c.decodeKeepsEveryFilter()
+	// a subscription that was acknowledged stays in effect: the tree drops a level only when it holds nothing
+	c.useRules(ruleT4)
+	c.pruneGuards()
 }
 
 // afterNever: no b after a (within the case).
